@@ -10,9 +10,17 @@
      svr_inv c l         0 <= alpha0, alpha1 <= c for every vector and sum (alpha1 - alpha0) = 0;
      ginv K eps ys l     grad0 = eps + y - f0(x) and grad1 = eps - y + f0(x) for every vector,
                          where f0(x) = sum_u (alpha1_u - alpha0_u) K(x_u, x);
-     expansion K inst w x = sum_i w_i K(x, inst_i);  rsum h l = sum of h over l. *)
+     expansion K inst w x = sum_i w_i K(x, inst_i);  rsum h l = sum of h over l.
+   (C10/ProofsSVR.v, C10/ProofsSVRDescent.v:)
+     loop_inv K c eps ys l m   svr_inv c l, ginv K eps ys l, and the min/max record m is consistent with l
+                         (coefficient kinds < 2, gmin/gmax bound the gradients of the movable coefficients);
+     xk_ok K xs v        r_x v is a training row (In xs) and the cached r_k v = K(r_x v, r_x v);
+     clip c i j oi oj d  the clipped pair of `svr_step` (svr_clip_eq if i = j, svr_clip_ne otherwise);
+     svr_dual K eps ys l the epsilon-insensitive dual objective, written out in C10_svr_dual_objective_form.
+   Gram-matrix statements are written out: for a list cxs of (coefficient, row) pairs the quadratic form
+   is  sum_a sum_b c_a c_b K(x_a, x_b). *)
 From Coq Require Import List ZArith Reals Lra Lia Bool Arith Floats.
-From SC Require Import Base.Num C10.Model C10.ProofsSVC C10.ProofsSVR C10.ProofsKernel.
+From SC Require Import Base.Num C10.Model C10.ProofsSVC C10.ProofsSVR C10.ProofsKernel C10.ProofsPSD C10.ProofsSVRPSD C10.ProofsSVRDescent.
 Import ListNotations.
 Local Open Scope R_scope.
 
@@ -175,26 +183,199 @@ Theorem C10_linear_gram_psd : forall cxs : list (R * list R),
   0 <= rsum (fun a => rsum (fun b => fst a * fst b * k_linear ROps (snd a) (snd b)) cxs) cxs.
 Proof. exact linear_gram_psd. Qed.
 
-(* ---------------------------------------------------------------------------------------------- *)
-(* Not proved (searched on every run): stated here so that the gap stays visible.                  *)
-(* ---------------------------------------------------------------------------------------------- *)
-(* SVR termination: for a positive semi-definite kernel some amount of fuel suffices. *)
-Definition C10_svr_terminates_full_statement : Prop :=
-  forall K tau big nbig c tol eps xs ys,
-    0 < c -> 0 < tol -> 0 < tau -> nbig < 0 < big -> length xs = length ys ->
-    (forall x y, K x y = K y x) ->
-    (forall cxs : list (R * list R), 0 <= rsum (fun a => rsum (fun b => fst a * fst b * K (snd a) (snd b)) cxs) cxs) ->
-    exists fuel, svr_smo ROps K tau big nbig c tol fuel eps xs ys <> None.
-(* RBF Gram matrices are positive semi-definite. *)
-Definition C10_rbf_gram_psd_full_statement : Prop :=
-  forall gamma (cxs : list (R * list R)), 0 <= gamma ->
-    0 <= rsum (fun a => rsum (fun b => fst a * fst b * k_rbf ROps gamma (snd a) (snd b)) cxs) cxs.
-(* what is proved of it: unit diagonal and entries in (0,1], hence every 2x2 RBF Gram matrix is PSD *)
+(* Schur product without spectral theory: if K1 is, on the rows at hand, an explicit finite sum of
+   weighted rank-one terms  K1(x,y) = sum_k w_k f_k(x) f_k(y)  with w_k >= 0, and K2 is positive
+   semi-definite, then the entrywise product K1*K2 is positive semi-definite
+   (v^T (K1 o K2) v = sum_k w_k (f_k o v)^T K2 (f_k o v)). *)
+Theorem C10_schur_rank_one_sum : forall (Ix : Type) (ks : list Ix) (w : Ix -> R) (f : Ix -> list R -> R)
+    (K1 K2 : list R -> list R -> R) (cxs : list (R * list R)),
+  (forall k, In k ks -> 0 <= w k) ->
+  (forall a b, In a cxs -> In b cxs ->
+     K1 (snd a) (snd b) = rsum (fun k => w k * (f k (snd a) * f k (snd b))) ks) ->
+  (forall cxs' : list (R * list R),
+     0 <= rsum (fun a => rsum (fun b => fst a * fst b * K2 (snd a) (snd b)) cxs') cxs') ->
+  0 <= rsum (fun a => rsum (fun b => fst a * fst b * (K1 (snd a) (snd b) * K2 (snd a) (snd b))) cxs) cxs.
+Proof. exact schur_rank_one_sum_plain. Qed.
+
+(* polynomial Gram matrices are positive semi-definite: gamma >= 0, coef0 >= 0, every natural degree d
+   (the power function of the model's kernel instantiated with the d-fold product, as in
+   C10_kernel_closed_forms), every finite family of rows of any lengths, every coefficient vector.
+   Induction on d by the Schur product; the degree-1 matrix is gamma X X^T + coef0 1 1^T. *)
+Theorem C10_polynomial_gram_psd : forall gamma coef0 degree d (cxs : list (R * list R)),
+  0 <= gamma -> 0 <= coef0 ->
+  0 <= rsum (fun a => rsum (fun b => fst a * fst b *
+                        k_poly ROps (fun b _ => opown ROps b d) degree gamma coef0 (snd a) (snd b)) cxs) cxs.
+Proof. exact polynomial_gram_psd. Qed.
+
+(* RBF Gram matrices are positive semi-definite: gamma >= 0, every finite family of rows of one common
+   length n (every n), every coefficient vector.  exp(-g|x-y|^2) = exp(-g|x|^2) exp(-g|y|^2) exp(2g x.y);
+   the last factor is the limit of the partial sums of the exponential series (Coq's exp is defined as
+   that infinite sum), each of which is PSD by the polynomial case; limits of non-negative numbers are
+   non-negative; conjugation by a positive diagonal keeps PSD.
+   The common-length hypothesis is the domain of the Rust kernel (Vec::sub panics on a length mismatch);
+   the model truncates the longer row instead, and on such ragged families the statement is FALSE
+   (C10_rbf_gram_psd_ragged_refuted) — so this is the full-strength statement. *)
+Theorem C10_rbf_gram_psd : forall gamma n (cxs : list (R * list R)), 0 <= gamma ->
+  (forall a, In a cxs -> length (snd a) = n) ->
+  0 <= rsum (fun a => rsum (fun b => fst a * fst b * k_rbf ROps gamma (snd a) (snd b)) cxs) cxs.
+Proof. exact rbf_gram_psd. Qed.
+
+(* the statement without the common-length hypothesis (the former C10_rbf_gram_psd_full_statement) is
+   refuted in the model: rows [0], [], [10] (gamma = 1) with coefficients 1, -1, 1.  This is a fact about
+   the model's truncation on inputs on which the Rust code panics, not a defect of the code. *)
+Theorem C10_rbf_gram_psd_ragged_refuted :
+  exists gamma (cxs : list (R * list R)), 0 <= gamma /\
+    rsum (fun a => rsum (fun b => fst a * fst b * k_rbf ROps gamma (snd a) (snd b)) cxs) cxs < 0.
+Proof. exact rbf_gram_ragged_not_psd. Qed.
+
+(* for rows of ANY two lengths: unit diagonal and entries in (0,1], hence every 2x2 RBF Gram matrix is PSD *)
 Theorem C10_rbf_gram_psd_partial : forall gamma x y c1 c2, 0 <= gamma ->
   k_rbf ROps gamma x x = 1 /\ 0 < k_rbf ROps gamma x y <= 1 /\
   0 <= c1 * c1 * k_rbf ROps gamma x x + c1 * c2 * k_rbf ROps gamma x y
        + c2 * c1 * k_rbf ROps gamma y x + c2 * c2 * k_rbf ROps gamma y y.
 Proof. exact rbf_two_point_psd. Qed.
+
+(* ---------------------------------------------------------------------------------------------- *)
+(* SVR and the positive semi-definite kernels                                                     *)
+(* ---------------------------------------------------------------------------------------------- *)
+(* The kernel hypotheses of the SVR clauses (symmetry; PSD on every finite family of coefficients
+   attached to training rows) hold for the three built-in kernels the property claims regressor
+   optimality for, on training rows of one common length. *)
+Theorem C10_svr_kernel_hypotheses_builtin : forall gamma coef0 degree d n (xs : list (list R)) (K : list R -> list R -> R),
+  0 <= gamma -> 0 <= coef0 -> (forall x, In x xs -> length x = n) ->
+  In K [k_linear ROps; k_rbf ROps gamma; k_poly ROps (fun b _ => opown ROps b d) degree gamma coef0] ->
+  (forall x y, K x y = K y x) /\
+  (forall cxs : list (R * list R), (forall a, In a cxs -> In (snd a) xs) ->
+     0 <= rsum (fun a => rsum (fun b => fst a * fst b * K (snd a) (snd b)) cxs) cxs).
+Proof. exact builtin_sym_psd. Qed.
+
+(* curvature: for a symmetric kernel that is PSD on the training rows, the second-order term
+   K_ii + K_jj - 2 K_ij of every pair step is non-negative; hence (tau > 0) the divisor `curv_of` used by
+   the pair selection and by the step is positive, IS the true curvature whenever that is positive, and
+   the code's tau fallback is reached only on pairs of curvature exactly zero (never hides a negative one). *)
+Theorem C10_svr_curvature_psd : forall (K : list R -> list R -> R) tau (xs : list (list R)),
+  0 < tau -> (forall x y, K x y = K y x) ->
+  (forall cxs : list (R * list R), (forall a, In a cxs -> In (snd a) xs) ->
+     0 <= rsum (fun a => rsum (fun b => fst a * fst b * K (snd a) (snd b)) cxs) cxs) ->
+  forall x y, In x xs -> In y xs ->
+  0 <= K x x + K y y - 2 * K x y /\
+  0 < curv_of ROps tau (K x x) (K y y) (K x y) /\
+  (0 < K x x + K y y - 2 * K x y -> curv_of ROps tau (K x x) (K y y) (K x y) = K x x + K y y - 2 * K x y) /\
+  (K x x + K y y - 2 * K x y = 0 -> curv_of ROps tau (K x x) (K y y) (K x y) = tau).
+Proof. exact svr_psd_curvature. Qed.
+
+(* the same for the built-in kernels with the hypotheses discharged, for ALL rows (for RBF also rows of
+   different lengths, by the two-point statement) *)
+Theorem C10_builtin_curvature_nonneg : forall gamma coef0 degree d x y, 0 <= gamma -> 0 <= coef0 ->
+  0 <= k_linear ROps x x + k_linear ROps y y - 2 * k_linear ROps x y /\
+  0 <= k_rbf ROps gamma x x + k_rbf ROps gamma y y - 2 * k_rbf ROps gamma x y /\
+  0 <= k_poly ROps (fun b _ => opown ROps b d) degree gamma coef0 x x
+       + k_poly ROps (fun b _ => opown ROps b d) degree gamma coef0 y y
+       - 2 * k_poly ROps (fun b _ => opown ROps b d) degree gamma coef0 x y.
+Proof. exact builtin_curvature. Qed.
+
+(* svr_exit_kkt for the built-in PSD kernels: no hypothesis about the kernel is left *)
+Theorem C10_svr_exit_kkt_builtin : forall gamma coef0 degree d (K : list R -> list R -> R) tau big nbig c tol eps xs ys,
+  0 <= gamma -> 0 <= coef0 ->
+  In K [k_linear ROps; k_rbf ROps gamma; k_poly ROps (fun b _ => opown ROps b d) degree gamma coef0] ->
+  0 < c -> length xs = length ys -> 0 <= eps ->
+  forall fuel l m,
+  svr_smo ROps K tau big nbig c tol fuel eps xs ys = Some (l, m) ->
+  svr_inv c l /\
+  map (r_index (T:=R)) l = seq 0 (length xs) /\
+  forall v, In v l ->
+    exists y, nth_error xs (r_index v) = Some (r_x v) /\ nth_error ys (r_index v) = Some y /\
+    let res := y - decision ROps K (svr_instances ROps l) (svr_weights ROps l) (svr_b ROps m) (r_x v) in
+    let w := svr_w ROps v in
+    (w = 0 -> - eps - tol / 2 <= res <= eps + tol / 2) /\
+    (0 < w < c -> eps - tol / 2 <= res <= eps + tol / 2) /\
+    (- c < w < 0 -> - eps - tol / 2 <= res <= - eps + tol / 2) /\
+    (w = c -> eps - tol / 2 <= res) /\
+    (w = - c -> res <= - eps + tol / 2).
+Proof. exact svr_smo_kkt_builtin. Qed.
+
+(* ---- descent of the dual objective (the first half of a termination argument) ------------------ *)
+(* svr_dual is the epsilon-insensitive dual objective (to be minimised), w_u = alpha1_u - alpha0_u *)
+Theorem C10_svr_dual_objective_form : forall K eps ys (l : list (rsv (T:=R))),
+  svr_dual K eps ys l
+  = / 2 * rsum (fun u => rsum (fun v => wR u * wR v * K (r_x v) (r_x u)) l) l
+    + eps * rsum (fun u => r_a0 u + r_a1 u) l
+    - rsum (fun u => nth (r_index u) ys 0 * wR u) l.
+Proof. exact svr_dual_form. Qed.
+
+(* one iteration with the optimizer's own step (svr_delta: the Newton step of the pair with divisor
+   curv_of) on ANY pair of distinct coefficients whose curvature is non-negative: the clipped update
+   decreases the dual objective by at least 1/2 curv theta^2, theta being the clipped change of the
+   first coefficient.  Needs: symmetric kernel, tau > 0, feasible state with exact gradients, and the
+   cached diagonal entries r_k = K(x,x). *)
+Theorem C10_svr_step_descent : forall K tau c eps ys, (forall x y, K x y = K y x) -> 0 < tau ->
+  forall l l' v1 i v2 j s1 s2, (i < 2)%nat -> (j < 2)%nat ->
+  svr_inv c l -> ginv K eps ys l ->
+  nth_error l v1 = Some s1 -> nth_error l v2 = Some s2 ->
+  r_k s1 = K (r_x s1) (r_x s1) -> r_k s2 = K (r_x s2) (r_x s2) ->
+  0 <= K (r_x s1) (r_x s1) + K (r_x s2) (r_x s2) - 2 * K (r_x s1) (r_x s2) ->
+  svr_step ROps K c v1 i v2 j (svr_delta ROps K tau s1 s2 i j) l = Some l' ->
+  let th := fst (clip c i j (r_alpha s1 i) (r_alpha s2 j) (svr_delta ROps K tau s1 s2 i j)) - r_alpha s1 i in
+  svr_dual K eps ys l' <= svr_dual K eps ys l
+                 - / 2 * curv_of ROps tau (K (r_x s1) (r_x s1)) (K (r_x s2) (r_x s2)) (K (r_x s1) (r_x s2)) * (th * th).
+Proof. exact svr_step_descent. Qed.
+
+(* the transliterated loop, any number of iterations, from any state satisfying the loop invariant
+   (loop_inv: feasible, exact gradients, min/max record consistent) whose vectors carry training rows and
+   their diagonal kernel entries (xk_ok): for a symmetric kernel that is PSD on the training rows the
+   dual objective at exit is not larger than at entry. *)
+Theorem C10_svr_loop_descent : forall K tau big nbig c tol eps xs ys,
+  (forall x y, K x y = K y x) -> 0 < tau ->
+  (forall cxs : list (R * list R), (forall a, In a cxs -> In (snd a) xs) ->
+     0 <= rsum (fun a => rsum (fun b => fst a * fst b * K (snd a) (snd b)) cxs) cxs) ->
+  forall fuel l m l' m',
+  loop_inv K c eps ys l m -> Forall (xk_ok K xs) l ->
+  svr_loop ROps K tau big nbig c tol fuel l m = Some (l', m') ->
+  svr_dual K eps ys l' <= svr_dual K eps ys l.
+Proof. exact svr_loop_descent_psd. Qed.
+
+(* hence: whenever `Optimizer::smo` returns, the dual objective of its coefficients is <= 0, the value
+   of the all-zero start *)
+Theorem C10_svr_smo_dual_nonpos : forall K tau big nbig c tol eps xs ys,
+  (forall x y, K x y = K y x) -> 0 < tau ->
+  (forall cxs : list (R * list R), (forall a, In a cxs -> In (snd a) xs) ->
+     0 <= rsum (fun a => rsum (fun b => fst a * fst b * K (snd a) (snd b)) cxs) cxs) ->
+  0 < c -> length xs = length ys ->
+  forall fuel l m,
+  svr_smo ROps K tau big nbig c tol fuel eps xs ys = Some (l, m) -> svr_dual K eps ys l <= 0.
+Proof. exact svr_smo_dual_nonpos_psd. Qed.
+
+(* the dual objective is bounded below on the feasible box for a kernel that is PSD on the training
+   rows: W >= - C sum_u |y_u|.  With C10_svr_step_descent: over any run of the optimizer the decreases
+   1/2 curv theta^2 of all iterations sum to at most W(start) + C sum |y|. *)
+Theorem C10_svr_dual_lower_bound : forall K c eps xs ys (l : list (rsv (T:=R))),
+  (forall x y, K x y = K y x) ->
+  (forall cxs : list (R * list R), (forall a, In a cxs -> In (snd a) xs) ->
+     0 <= rsum (fun a => rsum (fun b => fst a * fst b * K (snd a) (snd b)) cxs) cxs) ->
+  0 <= eps -> svr_inv c l -> Forall (fun v => In (r_x v) xs) l ->
+  - c * rsum (fun u => Rabs (nth (r_index u) ys 0)) l <= svr_dual K eps ys l.
+Proof. exact svr_dual_lower_bound. Qed.
+
+(* ---------------------------------------------------------------------------------------------- *)
+(* Not proved (searched on every run): stated here so that the gap stays visible.                  *)
+(* ---------------------------------------------------------------------------------------------- *)
+(* SVR termination: for a kernel that is symmetric and positive semi-definite on the training rows some
+   amount of fuel suffices.  NOT a target of the proof effort.  What is proved towards it: every iteration
+   decreases the dual objective by 1/2 curv theta^2 (C10_svr_step_descent), and the objective is bounded below
+   (C10_svr_dual_lower_bound), so the decreases are summable.  What is missing: a uniform
+   positive lower bound on the decrease while gmax - gmin > tol (theta can be cut arbitrarily short by
+   the box, which is where the classical finite-termination proofs of SMO need a separate argument);
+   termination is searched under a watchdog on every run.  The PSD hypothesis is stated on
+   families of training rows, so that by C10_svr_kernel_hypotheses_builtin it is satisfied by the linear,
+   RBF and integer-degree polynomial kernels on rows of one common length (stated over ALL row lists it
+   would be unsatisfiable for RBF: C10_rbf_gram_psd_ragged_refuted). *)
+Definition C10_svr_terminates_full_statement : Prop :=
+  forall K tau big nbig c tol eps xs ys,
+    0 < c -> 0 < tol -> 0 < tau -> nbig < 0 < big -> length xs = length ys ->
+    (forall x y, K x y = K y x) ->
+    (forall cxs : list (R * list R), (forall a, In a cxs -> In (snd a) xs) ->
+       0 <= rsum (fun a => rsum (fun b => fst a * fst b * K (snd a) (snd b)) cxs) cxs) ->
+    exists fuel, svr_smo ROps K tau big nbig c tol fuel eps xs ys <> None.
 
 (* ---------------------------------------------------------------------------------------------- *)
 (* The hypotheses are satisfiable                                                                  *)
@@ -239,3 +420,75 @@ Example C10_svr_smo_returns :
               (-0x1.fffffffffffffp+1023)%float 1%float 0x1.0624dd2f1a9fcp-10%float 1000 0x1p-3%float
               [[1]; [2]; [-1]; [-3]]%float [1; 2.5; -1; -2]%float = Some r.
 Proof. eexists. vm_compute. reflexivity. Qed.
+
+(* the hypotheses of the Gram-matrix theorems are satisfiable on non-trivial instances *)
+(* three rows of common length 2 with mixed-sign coefficients (C10_rbf_gram_psd, gamma = 1/2) *)
+Example C10_rbf_gram_psd_instance :
+  let cxs := [(1, [0; 1]); (-2, [3; 4]); (1/2, [-1; 2])] in
+  (forall a, In a cxs -> length (snd a) = 2%nat) /\
+  0 <= rsum (fun a => rsum (fun b => fst a * fst b * k_rbf ROps (1/2) (snd a) (snd b)) cxs) cxs.
+Proof.
+  cbv zeta. assert (H : forall a : R * list R, In a [(1, [0; 1]); (-2, [3; 4]); (1/2, [-1; 2])] -> length (snd a) = 2%nat).
+  { intros a [<-|[<-|[<-|[]]]]; reflexivity. }
+  split; [exact H|]. apply (rbf_gram_psd (1/2) 2); [lra | exact H].
+Qed.
+
+(* Schur product: K1 = 2 x.y + 3 on two rows of length 1 is the weighted rank-one sum with index set
+   [None; Some 0] (weights 3, 2; f_None = 1, f_(Some 0) = first coordinate); K2 = the linear kernel *)
+Example C10_schur_rank_one_sum_instance :
+  let cxs := [(1, [2]); (-1, [5])] in
+  let ks := [None; Some 0%nat] in
+  let w := fun k : option nat => match k with None => 3 | Some _ => 2 end in
+  let f := fun (k : option nat) (x : list R) => match k with None => 1 | Some i => nth i x 0 end in
+  (forall k, In k ks -> 0 <= w k) /\
+  (forall a b, In a cxs -> In b cxs ->
+     2 * k_linear ROps (snd a) (snd b) + 3 = rsum (fun k => w k * (f k (snd a) * f k (snd b))) ks) /\
+  (forall cxs' : list (R * list R),
+     0 <= rsum (fun a => rsum (fun b => fst a * fst b * k_linear ROps (snd a) (snd b)) cxs') cxs').
+Proof.
+  cbv zeta. split; [|split].
+  - intros k [<-|[<-|[]]]; lra.
+  - intros a b [<-|[<-|[]]] [<-|[<-|[]]]; rewrite k_linear_closed; cbn; lra.
+  - exact linear_gram_psd.
+Qed.
+
+(* the kernel hypotheses of the SVR clauses on a concrete training set (rows of length 2, RBF gamma = 1/4) *)
+Example C10_svr_kernel_hypotheses_instance :
+  let xs := [[1; 0]; [2; -1]; [0; 3]] in
+  (forall x, In x xs -> length x = 2%nat) /\
+  In (k_rbf ROps (1/4)) [k_linear ROps; k_rbf ROps (1/4); k_poly ROps (fun b _ => opown ROps b 3) 3 (1/4) 1] /\
+  (forall cxs : list (R * list R), (forall a, In a cxs -> In (snd a) xs) ->
+     0 <= rsum (fun a => rsum (fun b => fst a * fst b * k_rbf ROps (1/4) (snd a) (snd b)) cxs) cxs).
+Proof.
+  cbv zeta.
+  assert (H : forall x : list R, In x [[1; 0]; [2; -1]; [0; 3]] -> length x = 2%nat).
+  { intros x [<-|[<-|[<-|[]]]]; reflexivity. }
+  split; [exact H|]. split; [right; left; reflexivity|].
+  apply (builtin_sym_psd (1/4) 1 3 3 2 _ _); try lra; [exact H | right; left; reflexivity].
+Qed.
+
+(* every hypothesis of C10_svr_step_descent holds on a concrete state: the initial state of a two-row
+   problem (linear kernel, C = 1, eps = 1/4, tau = 1/1000), pair ((1,1),(0,0)) *)
+Example C10_svr_step_descent_instance :
+  let K := k_linear ROps in
+  let l := svr_init ROps K (1/4) 0 [[1]; [2]] [1; 3] in
+  exists s1 s2 l',
+    svr_inv 1 l /\ ginv K (1/4) [1; 3] l /\
+    nth_error l 1 = Some s1 /\ nth_error l 0 = Some s2 /\
+    r_k s1 = K (r_x s1) (r_x s1) /\ r_k s2 = K (r_x s2) (r_x s2) /\
+    0 <= K (r_x s1) (r_x s1) + K (r_x s2) (r_x s2) - 2 * K (r_x s1) (r_x s2) /\
+    svr_step ROps K 1 1 1 0 0 (svr_delta ROps K (1/1000) s1 s2 1 0) l = Some l'.
+Proof. exact svr_step_descent_instance. Qed.
+
+(* the hypotheses of C10_svr_dual_lower_bound on a concrete feasible state (weights +1/2, -1/2 on the
+   training rows [1], [2]; linear kernel) *)
+Example C10_svr_dual_lower_bound_instance :
+  let l := [mkRSV 0 [1] 0 (1/2) 0 0 1; mkRSV 1 [2] (1/2) 0 0 0 4] in
+  svr_inv 1 l /\ Forall (fun v => In (r_x v) [[1]; [2]]) l /\
+  (forall cxs : list (R * list R), (forall a, In a cxs -> In (snd a) [[1]; [2]]) ->
+     0 <= rsum (fun a => rsum (fun b => fst a * fst b * k_linear ROps (snd a) (snd b)) cxs) cxs).
+Proof.
+  cbv zeta. split; [exact C10_svr_inv_instance|]. split.
+  - constructor; [left; reflexivity | constructor; [right; left; reflexivity | constructor]].
+  - intros cxs _. apply linear_gram_psd.
+Qed.
